@@ -262,6 +262,38 @@ impl From<&Value> for Value {
     }
 }
 
+/// Compares an int with a double by the numbers they denote; converting the int to a double
+/// first would round it (2^53 + 1 would equal 2^53 as a double).
+fn cmp_int_float(i: i64, f: f64) -> Option<Ordering> {
+    if f.is_nan() {
+        return None;
+    }
+    if f >= 9223372036854775808.0 {
+        return Some(Ordering::Less);
+    }
+    if f < -9223372036854775808.0 {
+        return Some(Ordering::Greater);
+    }
+    // The integral part now fits an i64 exactly and the fractional part is exact.
+    let t = f.trunc();
+    Some(i.cmp(&(t as i64)).then(0.0.partial_cmp(&(f - t))?))
+}
+
+/// Compares a uint with a double by the numbers they denote.
+fn cmp_uint_float(u: u64, f: f64) -> Option<Ordering> {
+    if f.is_nan() {
+        return None;
+    }
+    if f >= 18446744073709551616.0 {
+        return Some(Ordering::Less);
+    }
+    if f < 0.0 {
+        return Some(Ordering::Greater);
+    }
+    let t = f.trunc();
+    Some(u.cmp(&(t as u64)).then(0.0.partial_cmp(&(f - t))?))
+}
+
 impl PartialEq for Value {
     fn eq(&self, other: &Self) -> bool {
         match (self, other) {
@@ -285,15 +317,15 @@ impl PartialEq for Value {
                 .try_into()
                 .map(|a: u64| a == *b)
                 .unwrap_or(false),
-            (Value::Int(a), Value::Float(b)) => (*a as f64) == *b,
+            (Value::Int(a), Value::Float(b)) => cmp_int_float(*a, *b) == Some(Ordering::Equal),
             (Value::UInt(a), Value::Int(b)) => a
                 .to_owned()
                 .try_into()
                 .map(|a: i64| a == *b)
                 .unwrap_or(false),
-            (Value::UInt(a), Value::Float(b)) => (*a as f64) == *b,
-            (Value::Float(a), Value::Int(b)) => *a == (*b as f64),
-            (Value::Float(a), Value::UInt(b)) => *a == (*b as f64),
+            (Value::UInt(a), Value::Float(b)) => cmp_uint_float(*a, *b) == Some(Ordering::Equal),
+            (Value::Float(a), Value::Int(b)) => cmp_int_float(*b, *a) == Some(Ordering::Equal),
+            (Value::Float(a), Value::UInt(b)) => cmp_uint_float(*b, *a) == Some(Ordering::Equal),
             (_, _) => false,
         }
     }
@@ -322,7 +354,7 @@ impl PartialOrd for Value {
                     // If the i64 doesn't fit into a u64 it must be less than 0.
                     .unwrap_or(Ordering::Less),
             ),
-            (Value::Int(a), Value::Float(b)) => (*a as f64).partial_cmp(b),
+            (Value::Int(a), Value::Float(b)) => cmp_int_float(*a, *b),
             (Value::UInt(a), Value::Int(b)) => Some(
                 a.to_owned()
                     .try_into()
@@ -330,9 +362,9 @@ impl PartialOrd for Value {
                     // If the u64 doesn't fit into a i64 it must be greater than i64::MAX.
                     .unwrap_or(Ordering::Greater),
             ),
-            (Value::UInt(a), Value::Float(b)) => (*a as f64).partial_cmp(b),
-            (Value::Float(a), Value::Int(b)) => a.partial_cmp(&(*b as f64)),
-            (Value::Float(a), Value::UInt(b)) => a.partial_cmp(&(*b as f64)),
+            (Value::UInt(a), Value::Float(b)) => cmp_uint_float(*a, *b),
+            (Value::Float(a), Value::Int(b)) => cmp_int_float(*b, *a).map(Ordering::reverse),
+            (Value::Float(a), Value::UInt(b)) => cmp_uint_float(*b, *a).map(Ordering::reverse),
             _ => None,
         }
     }
